@@ -77,6 +77,9 @@ type Sched struct {
 	locks  map[unsafe.Pointer]*lockState
 	onces  map[unsafe.Pointer]*onceState
 	wgs    map[unsafe.Pointer]int
+	pools  map[unsafe.Pointer][]any
+	// PoolPoints makes sync.Pool Get/Put schedule points (set by the buffer pool profile only).
+	PoolPoints bool
 
 	// Draw is called (from the single running task, or from the harness) for every nondeterministic
 	// choice the runtime itself has to make: map permutations and select poll order.
@@ -507,6 +510,49 @@ func WGWait(wg *sync.WaitGroup, site int) {
 		}
 	}
 	wg.Wait()
+}
+
+// PoolGet / PoolPut stand in for sync.Pool.Get / Put. Which per-P cache of the real pool holds an object is
+// the Go runtime's choice, not the simulator's: under a scheduler the pool is a deterministic LIFO free list.
+// With PoolPoints set there is a schedule point before Get and one after the object has become available in
+// Put (so that another task can take it before the putting caller continues); without it no schedule point
+// is added and the schedules of every other profile are unchanged.
+func PoolGet(p *sync.Pool) any {
+	s, t := ctx()
+	if t == nil {
+		return p.Get()
+	}
+	if s.PoolPoints {
+		s.park(t, -1, "", nil, nil)
+	}
+	var x any
+	s.mu.Lock()
+	if l := s.pools[unsafe.Pointer(p)]; len(l) > 0 {
+		x = l[len(l)-1]
+		s.pools[unsafe.Pointer(p)] = l[:len(l)-1]
+	}
+	s.mu.Unlock()
+	if x == nil && p.New != nil {
+		x = p.New()
+	}
+	return x
+}
+
+func PoolPut(p *sync.Pool, x any) {
+	s, t := ctx()
+	if t == nil {
+		p.Put(x)
+		return
+	}
+	s.mu.Lock()
+	if s.pools == nil {
+		s.pools = map[unsafe.Pointer][]any{}
+	}
+	s.pools[unsafe.Pointer(p)] = append(s.pools[unsafe.Pointer(p)], x)
+	s.mu.Unlock()
+	if s.PoolPoints {
+		s.park(t, -1, "", nil, nil)
+	}
 }
 
 // WGCount returns the shadow counter of a WaitGroup (used by oracles).
